@@ -22,8 +22,14 @@
     - application readers are not tracked: every backfill target and every
       "restart or append" choice that some configuration of application readers
       would produce is allowed (over-approximation);
-    - error exits (SQLITE_BUSY, I/O errors) are not steps: a step that would
-      fail is not enabled.  Close is the last litestream step.
+    - error exits of checkpointWithExecutor ARE steps ([LsFail], any control state: a
+      busy barrier / bump / boundary lock, a cancelled context, an I/O error), as is the
+      death of the process ([LsKill]); a checkpoint PRAGMA may come back busy with a
+      partial backfill ([LsCkpt] with j below the end for PASSIVE / FULL / RESTART,
+      [LsCkptBusy] for TRUNCATE: no reset).  Not steps: a failing sync outside the
+      checkpoint protocol (it changes nothing), a failing re-acquisition of the read
+      lock (litestream would run without its read transaction until the next
+      checkpoint), a failing rollback.
 
     The step function takes [midcheck : bool]: [true] is checkpointWithExecutor
     as fixed by /repo commit 80a5b27 (header re-read after a FULL/RESTART
@@ -499,6 +505,11 @@ Inductive label :=
                                 than the one synced so far is snapshotted, not followed), reachedWALEnd
                                 restored afterwards.  [LsSync] in the same control state is that copy before
                                 the commit *)
+| LsCkptBusy (j : nat) (sz : N)
+                             (* PRAGMA wal_checkpoint(TRUNCATE) that comes back busy (a reader the busy
+                                handler gave up on): whatever could be backfilled is, the WAL is NOT reset;
+                                the PRAGMA reports it in its result row, which execCheckpoint does not read.
+                                (FULL / RESTART: [LsCkpt] with j below the end) *)
 | LsFail (clear : bool).     (* ANY error exit of checkpointWithExecutor (SQLITE_BUSY at the barrier, the bump
                                 or the boundary lock, a cancelled context, an I/O error): the deferred
                                 rollbacks release the write lock, execCheckpoint's deferred acquireReadLock
@@ -576,9 +587,19 @@ Definition step (s : state) (l : label) : option state :=
               if (backfilled s <=? j) && (j <=? length (txs s))
               then Some (set_pc (set_backfill s j sz) (PCkpted m hg pre (flen (txs s)))) else None
           | Truncate =>
+              (* /repo commit 67a6f3f: syncedToWALEnd is cleared once the TRUNCATE PRAGMA has run *)
               if j =? length (txs s)
-              then Some (set_pc (reset_st (set_backfill s j sz) true) (PCkpted m hg pre 0)) else None
+              then Some (set_flag (set_pc (reset_st (set_backfill s j sz) true) (PCkpted m hg pre 0)) false)
+              else None
           end
+      | _, _ => None
+      end
+  | LsCkptBusy j sz =>
+      match pc s, ls_mark s with
+      | PReleased Truncate hg pre, None =>
+          if (backfilled s <=? j) && (j <=? length (txs s))
+          then Some (set_flag (set_pc (set_backfill s j sz) (PCkpted Truncate hg pre (flen (txs s)))) false)
+          else None
       | _, _ => None
       end
   | LsReacquire =>
